@@ -67,8 +67,17 @@ def _norm(v):
     return v
 
 
-def _round(point):
-    return [float("%.12g" % v) if isinstance(v, float) else v for v in (_norm(x) for x in point)]
+def _close(a, b):
+    for x, y in zip(a, b):
+        if isinstance(x, float) or isinstance(y, float):
+            try:
+                if abs(x - y) > 1e-9 * max(1.0, abs(x), abs(y)):
+                    return False
+            except TypeError:
+                return False
+        elif x != y:
+            return False
+    return len(a) == len(b)
 
 
 class Recorder:
@@ -237,10 +246,20 @@ def run_cbo(case):
                     df = search.search(max_evals=case["evals"])
                     cols = ["p:x%d" % i for i in range(len(dims))]
                     df = df.assign(_jid=[int(str(j).split(".")[-1]) for j in df["job_id"]]).sort_values("_jid")
-                    # the results are read back from results.csv: floats may differ by an ulp (pandas' parser), hence the rounding
-                    rnd = Recorder()
-                    props_r = rnd.tokens([_round(k) for e in rec.events if e[0] == 0 for k in e[5]])
-                    rows = [props_r, rnd.tokens([_round(r) for r in df[cols].values.tolist()])]
+                    # the results are read back from results.csv: floats may differ by an ulp (pandas' parser): a row is identified
+                    # with the first not yet matched proposal that is equal up to 1e-9 (relative) on the float coordinates
+                    praw = [(t, [_norm(v) for v in k]) for e in rec.events if e[0] == 0 for t, k in zip(e[4], e[5])]
+                    used, rows_t = [False] * len(praw), []
+                    for r in df[cols].values.tolist():
+                        r = [_norm(v) for v in r]
+                        for j, (t, k) in enumerate(praw):
+                            if not used[j] and _close(r, k):
+                                used[j] = True
+                                rows_t.append(t)
+                                break
+                        else:
+                            rows_t.append(-1)
+                    rows = [[t for t, _ in praw], rows_t]
                 except Exception as e:  # noqa: BLE001 - reported as a failure of the case
                     error = "%s: %s" % (type(e).__name__, str(e)[:300])
             with contextlib.suppress(Exception):
@@ -631,7 +650,7 @@ def streams(tier):
     ss = [
         Stream("filter_functional", gen_filter(2000 if th else 300), check_filter, shrink_filter, timeout=30),
         Stream("optimizer_histories", gen_opt(1200 if th else 120), check_opt, shrink_opt, timeout=120),
-        Stream("cbo_search", gen_cbo(1500 if th else 160, ["ET", "DUMMY", "ET", "RF", "ET", "DUMMY"] if th else ["ET", "ET", "DUMMY"], big=False),
+        Stream("cbo_search", gen_cbo(1200 if th else 160, ["ET", "DUMMY", "ET", "RF", "ET", "DUMMY"] if th else ["ET", "ET", "DUMMY"], big=False),
                check_cbo, shrink_cbo, timeout=300),
     ]
     ss.append(Stream("cbo_continuous", gen_cbo(300 if th else 24, ["ET", "DUMMY", "RF"] if th else ["ET", "ET", "DUMMY"], cont=True), check_cbo, shrink_cbo, timeout=300))
